@@ -193,14 +193,15 @@ class SymList:
 class SymDict:
     """Mutable dict with symbolic key set."""
 
-    __slots__ = ("has", "val", "kty", "vty", "name")
+    __slots__ = ("has", "val", "kty", "vty", "name", "size")
 
-    def __init__(self, has, val, kty, vty, name="d"):
+    def __init__(self, has, val, kty, vty, name="d", size=None):
         self.has = has  # Array K -> Bool
         self.val = val  # Array K -> V
         self.kty = kty
         self.vty = vty
         self.name = name
+        self.size = size  # optional ghost cardinality (z3 Int), maintained by the dict operations
 
     def state(self):
         return (self.has, self.val)
